@@ -51,7 +51,7 @@ CHECKS = {
            "Oracle: glob matches p <=> prefix joined with a remainder the postfix matches; postfix unrooted; re-partition identity; rebuild of the displayed postfix.",
     'C09': "Proved (partial, stated as such): soundness on the class of patterns all of whose expansions end in a tree wildcard; and the verdict itself for every flat "
            "rule-checked pattern not ending in a separator (C09_flat_always_sound: an Always verdict of the model of the pinned code means the last tree wildcard is "
-           "followed by `*` components only - C09_always_means_open_tail - and then everything beneath a matched path is matched). Tie: is_exhaustive() and the negation's "
+           "followed by `*` components only - C09_always_means_open_tail - and then everything beneath a matched path is matched; C09_built_flat_globs_always_sound: for flat globs that build the rule and parser side conditions are discharged). Tie: is_exhaustive() and the negation's "
            "exhaustive/non-exhaustive partition vs the model of the repaired sequencer. Oracle: for every Always verdict, descendants of matched canonical paths are matched.",
     'C10': "Proved (partial, stated as such; all patterns of the class x all canonical paths): every pattern without repetitions - alternations, concatenations, leaves "
            "and tree wildcards at any nesting - reports a depth variance that contains the component count of every matched canonical path "
